@@ -1143,19 +1143,25 @@ fn gen_plant(g: &mut G, files: &mut Vec<FileGen>, pfile: usize, avoid_known: boo
         _ => {
             // syntax-eof: the last line of the file lacks its terminator
             p.piece = npieces;
-            p.no_final_newline = true;
-            let i = g.t.below(4);
+            let i = g.t.below(8);
+            // 0-3: the last line lacks its terminator; 4-7: an unclosed bracket on the last line, which does end with a
+            // line break (the error is found at the end of the file, and the file has no further line to blame)
+            p.no_final_newline = i < 4;
             p.spelling = format!("eof{}", i);
             p.line = match i {
                 0 => format!("{} :: 1", x),
                 1 => format!("{} :: 1 +", x),
                 2 => format!("{} :: nope", x),
-                _ => format!("{}: int = \"s\"", x),
+                3 => format!("{}: int = \"s\"", x),
+                4 => format!("{} :: [1, 2", x),
+                5 => format!("{} :: (1 + 2", x),
+                6 => format!("{} :: as_str(1", x),
+                _ => format!("{} :: (1, 2", x),
             };
         }
     }
     decorate(g, &mut p);
-    if p.no_final_newline {
+    if p.no_final_newline || (p.kind == "syntax-eof") {
         p.trailer.clear();
     }
     p
